@@ -3,6 +3,7 @@ import itertools
 
 from .. import prim
 from . import common as C
+from . import shared
 
 X = C.X
 META = {
@@ -238,6 +239,8 @@ def run(ctx):
                         if var == [spec["count_if"][1]] and eff == spec["count_if"][0] and "kind" in subj_fields:
                             cond_ok = True
                 ctx.ob("R2", "counts:%s" % short, inc1 and cond_ok, "%s must add 1 exactly when the accepted argument's kind %s %s; increment %s, guards %s" % (short, {"eq": "==", "ne": "!="}[spec["count_if"][0]], spec["count_if"][1], wo.fmt(), prim.guards_fmt(gs)), fn=f, where=prim.site(f, wb, ws), how="dominating guard + oracle row")
+
+    shared.cost_model(ctx, "R2")
 
     # LimiterCursor::try_next: empty => Ok(arg); else first.try_arg(arg, rest)
     tnf = next((x for p, x in prog.fns.items() if p.endswith("LimiterCursor::<'_>::try_next")), None)
